@@ -29,6 +29,7 @@ THEOREMS = [
     'C13.array_old_id', 'C13.array_deletion_count_partial', 'C13.tilted_det', 'C13.expected_edge_orthogonal',
     'C13.array_kept_boundary_atoms_apart',
     'C13.disregistry_planes_adjoin', 'C13.disregistry_same_gap', 'C13.disregistry_common_column',
+    'C13.cylinder_radius_nearest_face',
 ]
 PARTIAL = {
     'array deletion count': 'array_deletion_count_partial proves that an accepted array has removed exactly `expected` atoms '
@@ -41,9 +42,13 @@ PARTIAL = {
     'that exactly the boundary atoms with a later one within the cutoff are removed; for the final (blended) system and '
     'for atoms outside the boundary set it is not a theorem: it depends on the lattice being commensurate with '
     'the tilted cell and on the duplicate cutoff; evaluated on the real results by the oracle (all pairs through a periodic '
-    'image, threshold min(cutoff, 0.3 nearest-neighbour distance))',
-    'disregistry accumulates to b': 'proved for the linear field (linear_field_one_burgers: exactly b from face to face, '
-    'linear_field_change in between); for the elastic field it is C12.burgers_closure up to the tail beyond the finite '
+    'image, threshold min(cutoff, 0.3 nearest-neighbour distance), lowered for elastic arrays by the analytic '
+    'non-periodicity 1.5 |b| atan(2y/L)/pi of the single-dislocation field at height y, pairs within |b| of the line skipped)',
+    'disregistry accumulates to b': 'disregistry() itself is modelled (plane selection, columns, means, interpolation) and '
+    'tied by the driver op `disreg`; proved: it compares the two planes adjoining planepos (disregistry_planes_adjoin), '
+    'depends on planepos only through the gap (disregistry_same_gap), and at a common column is the mean displacement above '
+    'minus below (disregistry_common_column); the accumulation is proved for the linear field (linear_field_one_burgers: '
+    'exactly b from face to face, linear_field_change in between); for the elastic field it is C12.burgers_closure up to the tail beyond the finite '
     'width, which is only bounded numerically here: |error| <= 6 |b| (h/(pi X_left) + h/(pi X_right)) + 0.02 |b| '
     '(+ 0.1 |b| for arrays), h the half spacing of the planes adjoining the slip plane, X the distance of the outermost '
     'atomic columns from the core',
@@ -56,16 +61,23 @@ PARTIAL = {
     'crystal (every atom on a lattice site of its type, det(uvws) natoms atoms) and that rcell.box.vects = uvws . '
     'ucell.vects . transform^T',
 }
-RULE = ('crystals built from literal fractional coordinates: fcc (setting f and p), L1_2, bcc (i and p), B2, simple cubic, hcp, '
-        'body-centred tetragonal, c-centred orthorhombic, lattice parameters fixed or drawn to 3 decimals; slip systems: slip '
+RULE = ('crystals built from literal fractional coordinates: fcc (setting f and p), L1_2, bcc (i and p), B2, simple cubic, hcp '
+        '(c/a 1.55 .. 1.9), body-centred tetragonal, c-centred orthorhombic, a monoclinic and a triclinic primitive cell (dyadic '
+        'box vectors; rotated cells tilted in the m-n plane and within the slip plane), lattice parameters fixed or drawn to 3 '
+        'decimals; slip systems: slip '
         'planes |h|,|k|,|l| <= bound (quick 1, thorough 2), line directions with the same bound lying in the plane, Burgers '
         'vectors among the two shortest classes of lattice vectors of the plane, one system per character (screw / edge / '
-        'mixed) per plane, plus 15 standard systems (fcc {111}, bcc {110} and {112}, hcp basal / prismatic / pyramidal, ...); '
+        'mixed) per plane, plus 22 standard systems (fcc {111}, bcc {110} and {112}, hcp basal / prismatic / pyramidal incl. '
+        '(11-22)<c+a>, bct (10-1), orthorhombic (1-10), monoclinic, triclinic); '
         'every m/n axis assignment (all six for the standard systems in the search, a random one otherwise); 3- and 4-index '
         'input for hcp; configurations: sizemults None / even / odd / zero / negative, list or tuple, amin/bmin/cmin, '
         'shiftindex (also negative), explicit shift (Cartesian or box-relative, also one that leaves atoms on the slip '
-        'plane), centre (Cartesian or box-relative, also off the slip plane and along the line), boundary box / cylinder, '
-        'widths 0 .. 3.5 (also relative to a, also larger than the system), linear or elastic arrays, cutoffs 0.2 .. 1.2. '
+        'plane; given in the call, at construction of a fresh object, or not at all), centre (Cartesian or box-relative, '
+        'along m, along the line, along n onto another gap between atomic planes, also off its middle), boundary box / '
+        'cylinder, widths 0 .. 3.5 (also relative to a, also larger than the system) plus probe widths 1e-5 on either side of '
+        'the depth of an atom below every face of the region / of an atom\'s distance from the line / of each surface-layer '
+        'edge, linear or elastic arrays, cutoffs 0.2 .. 1.2, with / without return_base_system; disregistry with planepos = '
+        'default / centre / another point of the same gap (oracle) and anywhere incl. on an atomic plane (correspondence). '
         'distinct = distinct (crystal, lattice parameters, slip system, m, n, configuration); non-trivial = the generator '
         'returned a system (refusals are counted separately)')
 ASSUMPTIONS = [
@@ -2228,15 +2240,20 @@ MANIFEST = {
             'mid-plane shifts, multiplier handling, reference system = C04.supersize + shift + C05.wrap, monopole (pos + '
             'u(pos - center), pbc along the line, wrap, box / cylinder boundary re-typing in squared form) and periodic '
             'array (face atoms, slip-plane refusal, tilt by -+b/2, linear field, duplicate detection with the shared dvect '
-            'model, expected-count test, old_id, blending, boundary). Proved for every ordered field and every '
+            'model, expected-count test, old_id, blending, boundary), and of atomman.defect.disregistry (adjoining planes, '
+            'atomic columns, column means, np.interp). Proved for every ordered field and every '
             'displacement field u: shifts put the slip plane midway between consecutive atomic planes; multipliers even and '
             'symmetric across the line; the reference system is the shifted crystal (count, order, types, lattice '
             'translations); the monopole keeps every atom with pos\' = pos + u(pos - center) modulo the line vector only, is '
-            'periodic along the line only, and re-types exactly the atoms outside the region; selected cell vectors obey the '
+            'periodic along the line only, and re-types exactly the atoms outside the region (the cylinder radius is the '
+            'distance of the line to the nearest of the four faces, also for tilted cells); disregistry() subtracts the two '
+            'planes adjoining planepos, depends on planepos only through that gap, and needs no interpolation at common '
+            'columns; selected cell vectors obey the '
             'zone law and are right handed in all six orders; the linear field accumulates exactly one Burgers vector; '
             'old_id maps every remaining atom of an array to its reference atom; the deletion count equals the count '
-            'implied by the volume change (partial). Tied to the code by a differential run on fcc/bcc/hcp/... cells and '
-            'slip systems; the clauses (also overlap-freeness and disregistry) are evaluated on the real results by an '
+            'implied by the volume change (partial). Tied to the code by a differential run on fcc/bcc/hcp/bct/orthorhombic/'
+            'monoclinic/triclinic cells and slip systems (whole configurations, the region at probe widths beside every face, '
+            'disregistry for arbitrary planepos); the clauses (also overlap-freeness and disregistry) are evaluated on the real results by an '
             'independent oracle.',
     'note': 'Trusted: Lean kernel + propext/Classical.choice/Quot.sound; the correspondence harness; the elastic solver as '
             'the supplier of u; the C04/C05 models of supersize/wrap. Partial: deletion count (guard of the code, edge '
